@@ -1,6 +1,7 @@
 import Req.Driver.Proto
 import Req.H1.BufLine
 import Req.Client.Dump
+import Req.Driver.L.C13W
 /-! Driver lanes of C13. -/
 namespace Req.Driver.L.C13
 open Req.Proto Req.H1.BufLine
@@ -289,6 +290,6 @@ def lanes : List (String × (List String → String)) := [
   ("c13preset", lanePreset),
   ("c13seq", laneSeq),
   ("c13life", laneLife)
-]
+] ++ Req.Driver.L.C13W.lanes
 
 end Req.Driver.L.C13
